@@ -1238,7 +1238,10 @@ impl<'a> FieldEntry<'a> {
         // since field name change by rust-analyzer is not possible when using `field.ident` span
         //
         // Same problem with `field.span()`, since it is the same as `field.ident` span when `field.vis` is empty.
-        self.field.ty.span()
+        //
+        // Only the location is taken from the field type: names such as `self` must still resolve at the
+        // macro call site, even if the type token comes from elsewhere (e.g. a `macro_rules!` argument).
+        self.field.ty.span().resolved_at(Span::call_site())
     }
 
     fn member(&self) -> TokenStream {
